@@ -15,8 +15,10 @@ import traceback
 from . import build, extract, lean
 from .build import VERIF, InfraError
 
-EVIDENCE_DIR = os.path.join(VERIF, "evidence")
-REPLAY_DIR = os.path.join(VERIF, "replays")
+# VERIF_EVIDENCE_DIR: used only by tools/seeded_matrix.sh so that runs against a deliberately broken
+# scratch tree do not overwrite the evidence of /repo itself
+EVIDENCE_DIR = os.environ.get("VERIF_EVIDENCE_DIR") or os.path.join(VERIF, "evidence")
+REPLAY_DIR = os.environ.get("VERIF_REPLAY_DIR") or os.path.join(VERIF, "replays")
 FINDINGS_FILE = os.path.join(VERIF, "known_findings.json")
 
 BASE_TRUSTED = [
